@@ -267,3 +267,57 @@ impl Tree {
 		v
 	}
 }
+
+impl Tree {
+	/// Serialise the universe so that child processes need not rebuild (re-mine) it.
+	pub fn save(&self, path: &std::path::Path) {
+		use grin_core::ser::{ser_vec, ProtocolVersion};
+		let v = ProtocolVersion::local();
+		let blocks: Vec<serde_json::Value> = self
+			.blocks
+			.iter()
+			.map(|b| {
+				serde_json::json!({
+					"name": b.name, "parent": b.parent, "bad": b.bad, "header_valid": b.header_valid,
+					"of": b.of, "variant_of": b.variant_of,
+					"hex": crate::ev::hex(&ser_vec(&b.block, v).expect("ser")),
+				})
+			})
+			.collect();
+		let j = serde_json::json!({
+			"gen": crate::ev::hex(&ser_vec(&self.gen, v).expect("ser")),
+			"nrd": self.nrd_enabled,
+			"blocks": blocks,
+		});
+		std::fs::write(path, serde_json::to_vec(&j).unwrap()).expect("write tree");
+	}
+	pub fn load(path: &std::path::Path) -> Tree {
+		use grin_core::ser::{deserialize, DeserializationMode, ProtocolVersion};
+		let v = ProtocolVersion::local();
+		let j: serde_json::Value = serde_json::from_slice(&std::fs::read(path).expect("read tree")).expect("json");
+		let de = |h: &str| -> Block {
+			let bytes = crate::ev::unhex(h);
+			deserialize(&mut &bytes[..], v, DeserializationMode::default()).expect("block")
+		};
+		let gen = de(j["gen"].as_str().unwrap());
+		let blocks = j["blocks"]
+			.as_array()
+			.unwrap()
+			.iter()
+			.map(|b| UB {
+				name: b["name"].as_str().unwrap().to_string(),
+				block: de(b["hex"].as_str().unwrap()),
+				parent: b["parent"].as_u64().map(|x| x as usize),
+				bad: b["bad"].as_str().map(|s| s.to_string()),
+				header_valid: b["header_valid"].as_bool().unwrap_or(true),
+				of: b["of"].as_u64().map(|x| x as usize),
+				variant_of: b["variant_of"].as_u64().map(|x| x as usize),
+			})
+			.collect();
+		Tree {
+			gen,
+			blocks,
+			nrd_enabled: j["nrd"].as_bool().unwrap_or(false),
+		}
+	}
+}
